@@ -56,7 +56,7 @@ func main() {
 	var servers []*srvT
 	var names []string
 	for n := range registry.Probes {
-		if strings.HasPrefix(n, "core_") {
+		if strings.HasPrefix(n, "core_") || strings.HasPrefix(n, "rnd_") {
 			names = append(names, n)
 		}
 	}
@@ -82,8 +82,10 @@ func main() {
 			sem <- struct{}{}
 			defer func() { <-sem }()
 			add(partA(rep, s))
-			add(partB(rep, s))
-			add(partC(rep, s))
+			if strings.HasPrefix(s.name, "core_") { // B and C address the core probe's argument positions
+				add(partB(rep, s))
+				add(partC(rep, s))
+			}
 		}(s)
 	}
 	wg.Wait()
@@ -104,8 +106,11 @@ func partA(rep *ev.Reporter, s *srvT) int64 {
 		if i%5 == 4 {
 			kind = ast.Mutation
 		}
-		op, doc, _ := diffrun.GenValid(s.env.Schema, opSeed, kind, opgen.Config{MaxDepth: 3, MaxSel: 4,
-			FieldFilter: func(t, f string) bool { return argFields[t+"."+f] }})
+		cfg := opgen.Config{MaxDepth: 3, MaxSel: 4}
+		if strings.HasPrefix(s.name, "core_") {
+			cfg.FieldFilter = func(t, f string) bool { return argFields[t+"."+f] }
+		}
+		op, doc, _ := diffrun.GenValid(s.env.Schema, opSeed, kind, cfg)
 		if doc == nil {
 			rep.Count("A_opgen_rejected", 1)
 			continue
